@@ -164,6 +164,8 @@ class AudioSim(AoefSim):
             "payload_bytes": frames.size * bits // 8, "broken": 0,
         }
         self.probes.hit(f"file:pcm-{bits}")
+        if op["frames"] >= 65_536:
+            self.probes.hit("file:>=65536-frames")
         raw = self.write_file(op["f"])
         self.record(op, "ok", file=sha(raw))
         self.trace.append(("create", op["ch"], op["frames"] == 0))
@@ -644,7 +646,11 @@ def draw_run_cfg(rng, focus, tier):
         "n_nodes": rng.choice([1, 2, 3]),
         "max_ops": rng.choice([8, 12, 18] + ([30] if thorough else [])),
         "rates": rng.sample(SAMPLE_RATES, rng.randint(1, 4)),
-        "max_frames": rng.choice([40, 300, 1500] + ([4000] if thorough else [])),
+        "max_frames": (
+            rng.choice([70_000, 140_000])  # block / buffer size thresholds
+            if rng.random() < (0.05 if thorough else 0.02)
+            else rng.choice([40, 300, 1500] + ([4000] if thorough else []))
+        ),
         "channels": rng.sample([1, 2, 3, 4], rng.randint(1, 3)),
         "tes": rng.sample(TIME_EXPANSIONS, rng.randint(1, 3)),
         "faults": rng.random() < 0.5,
@@ -949,6 +955,7 @@ CORE_PROBES = {
         "C15:returned-array-modified-in-place",
         "C15:earlier-array-rechecked",
         "C15:clip-starts-exactly-where-previous-ended",
+        "file:>=65536-frames",
         "file:truncated-payload",
         "file:grown",
         "file:grown-header-stale",
